@@ -94,7 +94,9 @@ def enc_component(rng, s, style):
 
 
 def encode_pairs(rng, ps, style):
-    return "&".join(enc_component(rng, k, style) + "=" + enc_component(rng, v, style) for k, v in ps)
+    # a blank value may be written as a bare key, without '=' (what a form or a hand-written link does)
+    return "&".join(enc_component(rng, k, style) + ("" if v == "" and k != "" and rng.random() < 0.5 else
+                                                    "=" + enc_component(rng, v, style)) for k, v in ps)
 
 
 # ---------------------------------------------------------------------------- JSON value code
